@@ -5,7 +5,7 @@ import impl, gen, oracle, evalutil as E
 from common import same_value, score_matches, rval_to_py, close
 from props.c08 import rand_handler
 
-RULE = ("uint8/uint16 pairs with an outlying overlap voxel whose two labels add up to 2^bits; class groups whose labels exceed the dtype of the arrays; label-map pairs (incl. one or both sides empty; label values up to 2^16 incl. multiples of 256) x subsets of global "
+RULE = ("the same evaluations in a child interpreter started with -O; a handler re-configured through its public mapping between two evaluations; uint8/uint16 pairs with an outlying overlap voxel whose two labels add up to 2^bits; class groups whose labels exceed the dtype of the arrays; label-map pairs (incl. one or both sides empty; label values up to 2^16 incl. multiples of 256) x subsets of global "
         "metrics {DSC,IOU,RVD,ASSD} x random asymmetric edge-case handlers x input types; each foreground evaluated under "
         "several instance labellings; non-trivial = a side is empty under a handler with distinct values, or the same "
         "foreground evaluated under >= 2 different labellings")
@@ -185,8 +185,68 @@ def group_dtype_cases(ctx, n):
                               inp, impl=res["here"], key={"kind": "global-value"})
 
 
+def optimized_cases(ctx, n):
+    """global metrics of label maps with labels other than 1, also in a child interpreter started with -O"""
+    rng = ctx.rng
+    cases = []
+    for i in range(n):
+        pred, ref = gen.pair(rng, ndim=rng.choice([2, 3]), hi=7, max_obj=3, allow_empty=rng.random() < 0.2)
+        k = rng.choice([1, 3, 7])
+        pred, ref = (pred * k).astype(np.uint8), (ref * k).astype(np.uint8)
+        gm = rng.sample(["DSC", "IOU", "RVD", "ASSD"], rng.randint(1, 3))
+        cases.append({"cfg": E.mk_cfg("MATCHED", ["IOU"]), "pred": pred, "ref": ref, "global_metrics": gm})
+    for k, d in E.optimized_differences(ctx, cases):
+        c = cases[k]
+        inp = {"shape": list(c["pred"].shape), "dtype": "uint8", "pred": gen.arr_json(c["pred"]), "ref": gen.arr_json(c["ref"]), "cfg": c["cfg"],
+               "global_metrics": c["global_metrics"], "mode": "python -O", "src": f"optimized{k}"}
+        ctx.case(inp, True)
+        ctx.violation("C13 violated in an interpreter started with -O: " + d, inp, key={"kind": "optimized"})
+    ctx.count("python_-O", len(cases))
+
+
+def reconfigured_handler_cases(ctx, n):
+    """one handler object: an empty-side case is evaluated, the handler is re-configured through its public mapping,
+    the case is evaluated again — the new configuration must be used"""
+    from panoptica import Panoptica_Evaluator
+    rng = ctx.rng
+    for i in range(n):
+        gm = rng.sample(["DSC", "IOU", "RVD"], rng.randint(1, 2))
+        h1, h2 = rand_handler(rng, gm), rand_handler(rng, gm)
+        cfg = E.mk_cfg("MATCHED", ["IOU"], handler=h1)
+        hobj = impl.mk_handler(h1)
+        with impl.quiet():
+            ev = Panoptica_Evaluator(expected_input=impl.INPUT["MATCHED"], edge_case_handler=hobj, instance_metrics=[impl.METRICS["IOU"]],
+                                     global_metrics=[impl.METRICS[m] for m in gm])
+        shape = (4, 5)
+        a = np.zeros(shape, np.uint8)
+        a[1:3, 1:4] = 2
+        z = np.zeros(shape, np.uint8)
+        scen, (p, r) = rng.choice([("EMPTY_PRED", (z, a)), ("EMPTY_REF", (a, z)), ("NO_INSTANCES", (z, z))])
+        E.run_impl(cfg, p, r, global_metrics=gm, evaluator=ev)
+        new = impl.mk_handler(h2)
+        for m in gm:
+            hobj.listmetric_zeroTP_handling[impl.METRICS[m]] = new.listmetric_zeroTP_handling[impl.METRICS[m]]
+        res = E.run_impl(cfg, p, r, global_metrics=gm, evaluator=ev)
+        inp = {"shape": list(shape), "pred": gen.arr_json(p), "ref": gen.arr_json(r), "handler_before": h1, "handler_after": h2, "global_metrics": gm,
+               "scenario": scen, "src": f"reconf{i}"}
+        ctx.case(inp, True)
+        ctx.count("handler_reconfigured")
+        if isinstance(res, str):
+            continue
+        t2 = {m: z_ for m, z_ in h2["table"]}
+        for m in gm:
+            got = res["ungrouped"]["global_bin_" + m.lower()]
+            want = E.edge_py(t2[m][scen])
+            if isinstance(got, str) or not same_value(got, want, exact=True):
+                ctx.violation(f"after re-configuring the handler, global_bin_{m.lower()} for {scen} is {got}, but the handler now prescribes {t2[m][scen]}",
+                              inp, impl=res["ungrouped"], key={"kind": "global-empty"})
+                break
+
+
 def run(ctx):
     corpus(ctx)
+    optimized_cases(ctx, ctx.scale(25, 150))
+    reconfigured_handler_cases(ctx, ctx.scale(30, 300))
     complementary_cases(ctx, ctx.scale(60, 600))
     group_dtype_cases(ctx, ctx.scale(40, 400))
     run_cases(ctx, ctx.scale(500, 5000), "rand")
@@ -198,6 +258,12 @@ def search(ctx):
 
 def replay(ctx, rec):
     i = rec["input"]
+    if i.get("mode") == "python -O":
+        optimized_cases(ctx, 40)
+        return
+    if "handler_after" in i:
+        reconfigured_handler_cases(ctx, 80)
+        return
     if i.get("groups"):
         pred, ref = np.array(i["pred"], dtype=np.uint8).reshape(i["shape"]), np.array(i["ref"], dtype=np.uint8).reshape(i["shape"])
         res = E.run_impl(i["cfg"], pred, ref, groups=i["groups"], global_metrics=i["global_metrics"])
